@@ -146,6 +146,23 @@ def afterPop (s1 : St) (l : Nat) (waiter : Bool) : Reply → St
   | .result (some sid) => { s1 with confirming := some (l, sid, waiter) }
   | _ => { s1 with log := s1.log ++ (if waiter then [.subConfirmed l false] else []) }
 
+/-- `addActiveSub` for a still configured subscription -/
+def activateSub (s : St) (l sid : Nat) : St :=
+  { s with confirming := none,
+           subs := (l, { getSub s l with current := some sid }) :: s.subs.filter (·.1 != l),
+           active := (sid, l) :: s.active.filter (·.1 != sid) }
+
+/-- the sub objects after `clearActiveReturnConfiguredSubs`: configured ones lose their request / server id -/
+def resetSubs (s : St) : List (Nat × SubRec) :=
+  s.subs.map fun p => if s.configured.contains p.1 then (p.1, { p.2 with pendingReq := none, current := none }) else p
+
+/-- `handleReconnect`, first half: fail the calls, clear the tables, queue the configured subscriptions -/
+def clearAll (s : St) (order : List Nat) : St :=
+  { s with calls := [], active := [], pending := [],
+           log := s.log ++ s.calls.map fun p => Ev.completed p.2 p.1 false,
+           resubQueue := order.filter s.configured.contains,
+           subs := resetSubs s }
+
 def step (s : St) : Op → St
   | .call c =>
     let id := s.counter + 1
@@ -172,24 +189,15 @@ def step (s : St) : Op → St
     match s.confirming with
     | none => s
     | some (l, sid, waiter) =>
-      let s0 := { s with confirming := none }
       let s1 : St :=
-        if Gen.RpcFacts.activateChecksConfigured && !s.configured.contains l then s0
-        else
-          let s2 := setSub s0 l { getSub s0 l with current := some sid }
-          { s2 with active := (sid, l) :: s2.active.filter (·.1 != sid) }
+        if Gen.RpcFacts.activateChecksConfigured && !s.configured.contains l then { s with confirming := none }
+        else activateSub s l sid
       { s1 with log := s1.log ++ (if waiter then [.subConfirmed l true] else []) }
   | .notify sid =>
     match s.active.find? (·.1 == sid) with
     | some (_, l) => { s with log := s.log ++ [.notified l ((getSub s l).current.getD 0)] }
     | none => { s with log := s.log ++ [.dropped] }
-  | .reconnectClear order =>
-    if !s.reconnectEnabled then s
-    else
-      let failed := s.calls.map fun p => Ev.completed p.2 p.1 false
-      { s with calls := [], active := [], pending := [], log := s.log ++ failed,
-               resubQueue := order.filter s.configured.contains,
-               subs := s.subs.map fun p => if s.configured.contains p.1 then (p.1, { p.2 with pendingReq := none, current := none }) else p }
+  | .reconnectClear order => if !s.reconnectEnabled then s else clearAll s order
   | .resubscribe =>
     match s.resubQueue with
     | [] => s
